@@ -62,8 +62,24 @@ def real_histories(ctx):
     hs = [["ret", "raise", "ret", "sysexit", "ret", "kbdint", "ret"], ["block", "ret", "ret"], ["raise", "block", "kbdint", "ret"]]
     if not ctx.quick:
         hs += [["sysexit", "sysexit", "ret"], ["ret", "block", "sysexit", "block", "ret"], ["raise"] * 4 + ["ret"]]
-    for h in hs:
-        gw = execnet.makegateway("popen//execmodel=main_thread_only")
+    def by_spec():
+        return execnet.makegateway("popen//execmodel=main_thread_only"), None
+
+    def by_group_default():
+        # the execmodel comes from the group (Group.set_execmodel), not from the spec
+        g = execnet.Group()
+        g.set_execmodel("main_thread_only")
+        return g.makegateway("popen"), g
+
+    def by_socket_host():
+        # a socket worker hosted by a main_thread_only gateway runs that gateway's model: its bodies own the host's main thread
+        g = execnet.Group()
+        g.makegateway("popen//execmodel=main_thread_only//id=host")
+        return g.makegateway("socket//installvia=host"), g
+
+    plan = [(h, by_spec) for h in hs] + [(hs[0], by_group_default), (hs[1], by_group_default), (hs[0][:3], by_socket_host)]
+    for h, make in plan:
+        gw, own_group = make()
         evs = []
 
         def ev(e, op="", chan=0, tok=0, res="", flag=False):
@@ -117,8 +133,8 @@ def real_histories(ctx):
             ev("end")
         finally:
             gw.exit()
-            execnet.default_group.terminate(timeout=3)
-        cases.append({"events": evs, "history": h})
+            (own_group or execnet.default_group).terminate(timeout=3)
+        cases.append({"events": evs, "history": h, "made_by": make.__name__})
     return cases
 
 
